@@ -288,7 +288,10 @@ def get_cauchy_point(
     delta_t_min = 0 if delta_t_min < 0 else delta_t_min
     t_old += delta_t_min
 
-    x_cp[t >= t_cur] = np.clip(x + t_old * d, lb, ub)[t >= t_cur]
+    # move only the variables that are still free: the ones fixed in the loop (d reset
+    # to zero) must stay on their bound, also when the loop exits on a tied breakpoint
+    is_moving = d != 0
+    x_cp[is_moving] = np.clip(x + t_old * d, lb, ub)[is_moving]
 
     c += delta_t_min * p
 
